@@ -151,7 +151,13 @@ func init() {
 		return nil
 	}
 	h["vTag"] = func(in *Interp, fr *frame, a []Value) Value {
-		in.path.tags = append(in.path.tags, a[0].(string))
+		t := a[0].(string)
+		for _, x := range in.path.tags {
+			if x == t {
+				return nil
+			}
+		}
+		in.path.tags = append(in.path.tags, t)
 		return nil
 	}
 	h["vObserve"] = func(in *Interp, fr *frame, a []Value) Value {
@@ -184,6 +190,22 @@ func init() {
 		n := 0
 		for _, t := range in.env.timers {
 			if t.armed {
+				n++
+			}
+		}
+		return in.k64(int64(n))
+	}
+	// vFireDue fires every armed timer whose deadline has been reached (in creation order); returns how many ran.
+	h["vFireDue"] = func(in *Interp, fr *frame, a []Value) Value {
+		n := 0
+		for i := 0; i < len(in.env.timers); i++ {
+			t := in.env.timers[i]
+			if !t.armed {
+				continue
+			}
+			if in.decide(in.tc.Cmp(OpSLe, t.when, in.clockNow())) {
+				t.armed = false
+				in.call(fr, t.fn, t.args, nil)
 				n++
 			}
 		}
